@@ -113,15 +113,19 @@ theorem step_static {P : Progs} {s s' : State} {t : Tid} {th : Thread} {i : Inst
 
 theorem step_routes {P : Progs} {s s' : State} {t : Tid} {th : Thread} {i : Instr} {rest : List Instr}
     (ht : s.threads t = some th) (hc : th.code = i :: rest) (hs : step P s (.tau t) = some s') :
-    (s'.routes = s.routes ∧ s'.svcRoutes = s.svcRoutes ∧ (i = .sAdd ∨ i = .sDel ∨ i = .sRemove → th.skip = true)) ∨
+    (s'.routes = s.routes ∧ s'.svcRoutes = s.svcRoutes ∧ s'.waiting = s.waiting ∧
+      (i = .sAdd ∨ i = .sDel ∨ i = .sRemove → th.skip = true)) ∨
     (i = .sAdd ∧ th.skip = false ∧ s'.svcRoutes = s.svcRoutes ∧
       s'.routes = (svcAdd P.storeSame ⟨th.w, th.desc⟩ th.desc.svcs s.routes []).1 ∧
+      s'.waiting = svcClaim ⟨th.w, th.desc⟩ s.routes th.desc.svcs s.waiting ∧
       ∃ th', s'.threads t = some th' ∧ th'.present = (svcAdd P.storeSame ⟨th.w, th.desc⟩ th.desc.svcs s.routes []).2) ∨
     (i = .sDel ∧ th.skip = false ∧
-      s'.routes = svcDelete ((s.svcRoutes th.desc.name).filter (fun k => !th.present.contains k)) s.routes ∧
-      s'.svcRoutes = upd s.svcRoutes th.desc.name th.present) ∨
-    (i = .sRemove ∧ th.skip = false ∧ ∃ wt, s.watchers th.w = some wt ∧
-      s'.routes = svcDelete (s.svcRoutes wt.name) s.routes ∧ s'.svcRoutes = upd s.svcRoutes wt.name []) := by
+      ∃ q, q = relLoop ((s.svcRoutes th.desc.name).filter (fun k => !th.present.contains k))
+          ⟨s.routes, fun k => if th.desc.svcs.contains k then s.waiting k else dropClaim (s.waiting k) th.desc.name, s.svcRoutes⟩ ∧
+        s'.routes = q.r ∧ s'.waiting = q.w ∧ s'.svcRoutes = upd q.v th.desc.name (dedup th.present)) ∨
+    (i = .sRemove ∧ th.skip = false ∧ ∃ wt q, s.watchers th.w = some wt ∧
+      q = relLoop (s.svcRoutes wt.name) ⟨s.routes, s.waiting, s.svcRoutes⟩ ∧
+      s'.routes = q.r ∧ s'.svcRoutes = upd q.v wt.name [] ∧ s'.waiting = fun k => dropClaim (q.w k) wt.name) := by
   obtain ⟨op, code, skip, a, snap, cr, pres, res⟩ := th
   simp only at hc; subst hc
   simp only [step, ht] at hs
@@ -131,16 +135,15 @@ theorem step_routes {P : Progs} {s s' : State} {t : Tid} {th : Thread} {i : Inst
     cases i <;> simp only at hs <;> (repeat' split at hs) <;>
       first
       | (cases hs; done)
-      | (cases hs; left; exact ⟨rfl, rfl, by simp⟩)
-      | (cases hs; right; left; exact ⟨rfl, rfl, rfl, rfl, _, upd_same _ _ _, rfl⟩)
-      | (cases hs; right; right; left; exact ⟨rfl, rfl, rfl, rfl⟩)
-      | (cases hs; right; right; right; exact ⟨rfl, rfl, _, ‹_›, rfl, rfl⟩)
+      | (cases hs; left; exact ⟨rfl, rfl, rfl, by simp⟩)
+      | (cases hs; right; left; exact ⟨rfl, rfl, rfl, rfl, rfl, _, upd_same _ _ _, rfl⟩)
+      | (cases hs; right; right; left; exact ⟨rfl, rfl, _, rfl, rfl, rfl, rfl⟩)
+      | (cases hs; right; right; right; exact ⟨rfl, rfl, _, _, ‹_›, rfl, rfl, rfl, rfl⟩)
   · simp only [if_true] at hs
     cases i <;> simp only at hs <;> (repeat' split at hs) <;>
       first
       | (cases hs; done)
-      | (cases hs; left; exact ⟨rfl, rfl, by simp⟩)
-
+      | (cases hs; left; exact ⟨rfl, rfl, rfl, by simp⟩)
 
 theorem step_wset {P : Progs} {s s' : State} {t : Tid} {th : Thread} {i : Instr} {rest : List Instr}
     (ht : s.threads t = some th) (hc : th.code = i :: rest) (hs : step P s (.tau t) = some s') :
@@ -647,7 +650,7 @@ theorem wset_step {P : Progs} {s s' : State} {t : Tid} {th : Thread} {i : Instr}
       · simp only [A.step] at ha; split at ha
         · rename_i hx; simp only [Bool.and_eq_true, Bool.not_eq_true'] at hx
           have := (Option.some.inj ha).symm
-          exact ⟨hx.1, hx.2, by rw [this]⟩
+          exact ⟨hx.1.1, hx.1.2, by rw [this]⟩
         · cases ha
     obtain ⟨hcl, hnsr, hsr'⟩ := ha
     have hr := removed_add ht hth hop hsr'
@@ -745,213 +748,302 @@ theorem wset_step {P : Progs} {s s' : State} {t : Tid} {th : Thread} {i : Instr}
     · exact absurd ⟨rfl, hsk⟩ hSR
 
 
-/-! ### service map bookkeeping -/
 
-structure SvcInv (s : State) : Prop where
-  keyIn : ∀ k e, s.routes k = some e → k ∈ e.desc.svcs
-  owned : ∀ n k, k ∈ s.svcRoutes n → ∃ e, s.routes k = some e ∧ e.desc.name = n
-  midP : ∀ t th, s.threads t = some th → th.a.mid = true →
-    ∀ k ∈ s.svcRoutes th.desc.name, k ∈ th.desc.svcs → k ∈ th.present
-  midOwn : ∀ t th, s.threads t = some th → th.a.mid = true →
-    ∀ k ∈ th.present, ∃ e, s.routes k = some e ∧ e.desc.name = th.desc.name
+/-! ### claims, release (fix D31) -/
 
-theorem svc_init : SvcInv init := by
-  constructor <;> simp [init]
+abbrev DistinctNames (l : List Entry) : Prop := l.Pairwise (fun a b => a.desc.name ≠ b.desc.name)
 
-theorem svc_spawn {P : Progs} {s : State} {t : Tid} (op : Op) (h : SvcInv s) (hn : s.threads t = none) :
-    SvcInv (setThread s t { op := op, code := P.of op }) := by
-  refine ⟨h.keyIn, h.owned, ?_, ?_⟩
-  · intro t0 th0 h0 hm
-    rcases upd_some_cases h0 with ⟨rfl, rfl⟩ | ⟨ne, h0'⟩
-    · simp at hm
-    · exact h.midP t0 th0 h0' hm
-  · intro t0 th0 h0 hm
-    rcases upd_some_cases h0 with ⟨rfl, rfl⟩ | ⟨ne, h0'⟩
-    · simp at hm
-    · exact h.midOwn t0 th0 h0' hm
+theorem dropClaim_sublist (l : List Entry) (n : Name) : (dropClaim l n).Sublist l := by
+  induction l with
+  | nil => exact List.Sublist.slnil
+  | cons c cs ih =>
+    simp only [dropClaim]
+    split
+    · exact List.sublist_cons_self c cs
+    · exact ih.cons₂ c
 
-theorem svc_step {P : Progs} {s s' : State} {t : Tid} {th : Thread} {i : Instr} {rest : List Instr}
-    (hinv : Inv P s) (h : SvcInv s)
-    (ht : s.threads t = some th) (hc : th.code = i :: rest) (hs : step P s (.tau t) = some s') : SvcInv s' := by
-  obtain ⟨th', hth, hop, hrel⟩ := step_flags hinv ht hc hs
-  have hd : th'.desc = th.desc := by simp [Thread.desc, hop]
-  have hw : th'.w = th.w := by simp [Thread.w, hop]
-  have hth' : s'.threads t = some th' := by rw [hth]; simp
-  -- while `t` holds the table mutex no other thread is in the middle of an update
-  have nomid : th.a.ht = true → ∀ t0 th0, t0 ≠ t → s.threads t0 = some th0 → th0.a.mid = true → False := by
-    intro hh t0 th0 ne h0 hm
-    have e1 := (hinv.th t0 th0 h0).ht ((hinv.th t0 th0 h0).mid hm)
-    have e2 := (hinv.th t th ht).ht hh
-    rw [e1] at e2; cases e2; exact ne rfl
-  rcases step_routes ht hc hs with ⟨hr, hv, hsk3⟩ | ⟨rfl, hsk, hv, hr, th'', h1, hp⟩ | ⟨rfl, hsk, hr, hv⟩ |
-      ⟨rfl, hsk, wt, hwt, hr, hv⟩
-  · -- the service tables do not change
-    have hflags : th'.a.mid = th.a.mid ∧ th'.present = th.present := by
-      rcases hrel with ⟨_, _, ha, hp⟩ | ⟨_, _, ha, hp, _⟩ | ⟨hsk, _, ha, hp⟩
-      · exact ⟨by rw [ha]; exact (skipA_flags i th.a).2.2.2.1, hp⟩
-      · exact ⟨by rw [ha], hp⟩
-      · have n1 : i ≠ .sAdd := fun e => by have := hsk3 (Or.inl e); rw [hsk] at this; cases this
-        have n2 : i ≠ .sDel := fun e => by have := hsk3 (Or.inr (Or.inl e)); rw [hsk] at this; cases this
-        refine ⟨Astep_mid ha n1 n2, ?_⟩
-        rcases hp with hp | hp
-        · exact hp
-        · exact absurd hp n1
-    refine ⟨?_, ?_, ?_, ?_⟩
-    · intro k e he; rw [hr] at he; exact h.keyIn k e he
-    · intro n k hk; rw [hv] at hk; rw [hr]; exact h.owned n k hk
-    · intro t0 th0 h0 hm
-      rw [hth] at h0; rw [hv]
-      rcases upd_some_cases h0 with ⟨rfl, rfl⟩ | ⟨ne, h0'⟩
-      · rw [hd, hflags.2]; exact h.midP t0 th ht (hflags.1 ▸ hm)
-      · exact h.midP t0 th0 h0' hm
-    · intro t0 th0 h0 hm
-      rw [hth] at h0; rw [hr]
-      rcases upd_some_cases h0 with ⟨rfl, rfl⟩ | ⟨ne, h0'⟩
-      · rw [hd, hflags.2]; exact h.midOwn t0 th ht (hflags.1 ▸ hm)
-      · exact h.midOwn t0 th0 h0' hm
-  · -- add phase
-    rw [hth'] at h1; cases h1
-    have ha : th.a.ht = true ∧ th.a.mid = false := by
-      rcases hrel with ⟨x, _⟩ | ⟨_, _, _, _, _, hi⟩ | ⟨_, _, ha, _⟩
-      · rw [hsk] at x; cases x
-      · rcases hi with hi | hi | hi <;> cases hi
-      · simp only [A.step] at ha; split at ha
-        · rename_i hx; simp only [Bool.and_eq_true, Bool.not_eq_true'] at hx
-          exact ⟨hx.1.1.1.1.2, hx.2⟩
-        · cases ha
-    refine ⟨?_, ?_, ?_, ?_⟩
-    · intro k e he
-      rw [hr] at he
-      rcases svcAdd_some he with x | ⟨rfl, hk⟩
-      · exact h.keyIn k e x
-      · rcases svcAdd_sub _ _ _ _ hk with x | x
-        · cases x
-        · exact x
-    · intro n k hk
-      rw [hv] at hk
-      obtain ⟨e, h1, h2⟩ := h.owned n k hk
-      obtain ⟨e', h3, h4⟩ := svcAdd_keeps_name (ss := P.storeSame) (x := ⟨th.w, th.desc⟩) th.desc.svcs s.routes [] k e h1
-      exact ⟨e', by rw [hr]; exact h3, h4.trans h2⟩
-    · intro t0 th0 h0 hm k hk hks
-      rw [hth] at h0
-      rcases upd_some_cases h0 with ⟨rfl, rfl⟩ | ⟨ne, h0'⟩
-      · rw [hp]; rw [hv, hd] at hk; rw [hd] at hks
-        obtain ⟨e, h1, h2⟩ := h.owned _ k hk
-        exact svcAdd_present _ _ _ _ hks ⟨e, h1, h2⟩
-      · exact (nomid ha.1 t0 th0 ne h0' hm).elim
-    · intro t0 th0 h0 hm k hk
-      rw [hth] at h0
-      rcases upd_some_cases h0 with ⟨rfl, rfl⟩ | ⟨ne, h0'⟩
-      · rw [hp] at hk; rw [hr, hd]
-        rcases svcAdd_present_owned _ _ _ _ hk with x | x
-        · cases x
-        · exact x
-      · exact (nomid ha.1 t0 th0 ne h0' hm).elim
-  · -- delete phase
-    have ha : th.a.ht = true ∧ th.a.mid = true ∧ th'.a.mid = false := by
-      rcases hrel with ⟨x, _⟩ | ⟨_, _, _, _, _, hi⟩ | ⟨_, _, ha, _⟩
-      · rw [hsk] at x; cases x
-      · rcases hi with hi | hi | hi <;> cases hi
-      · simp only [A.step] at ha; split at ha
-        · rename_i hx; simp only [Bool.and_eq_true] at hx
-          have := (Option.some.inj ha).symm
-          exact ⟨hx.1, hx.2, by rw [this]⟩
-        · cases ha
-    obtain ⟨hht, hmid, hmid'⟩ := ha
-    have notDel : ∀ k, k ∈ th.present → k ∉ (s.svcRoutes th.desc.name).filter (fun k => !th.present.contains k) := by
-      intro k hk hx
-      have := (List.mem_filter.1 hx).2
-      simp [hk] at this
-    refine ⟨?_, ?_, ?_, ?_⟩
-    · intro k e he; rw [hr] at he; exact h.keyIn k e (svcDelete_some.1 he).1
-    · intro n k hk
-      rw [hv] at hk; rw [hr]
-      by_cases e : n = th.desc.name
-      · subst e
-        simp only [upd_same] at hk
-        obtain ⟨e, h1, h2⟩ := h.midOwn t th ht hmid k hk
-        exact ⟨e, svcDelete_some.2 ⟨h1, notDel k hk⟩, h2⟩
-      · rw [upd_other _ _ _ _ e] at hk
-        obtain ⟨e1, h1, h2⟩ := h.owned n k hk
-        refine ⟨e1, svcDelete_some.2 ⟨h1, ?_⟩, h2⟩
-        intro hx
-        obtain ⟨e2, h3, h4⟩ := h.owned _ k (List.mem_filter.1 hx).1
-        rw [h1] at h3; cases h3; exact e (h2.symm.trans h4)
-    · intro t0 th0 h0 hm
-      rw [hth] at h0
-      rcases upd_some_cases h0 with ⟨rfl, rfl⟩ | ⟨ne, h0'⟩
-      · rw [hmid'] at hm; cases hm
-      · exact (nomid hht t0 th0 ne h0' hm).elim
-    · intro t0 th0 h0 hm
-      rw [hth] at h0
-      rcases upd_some_cases h0 with ⟨rfl, rfl⟩ | ⟨ne, h0'⟩
-      · rw [hmid'] at hm; cases hm
-      · exact (nomid hht t0 th0 ne h0' hm).elim
-  · -- removeTarget
-    have ha : th.a.ht = true ∧ th'.a.mid = false := by
-      rcases hrel with ⟨x, _⟩ | ⟨_, _, _, _, _, hi⟩ | ⟨_, _, ha, _⟩
-      · rw [hsk] at x; cases x
-      · rcases hi with hi | hi | hi <;> cases hi
-      · simp only [A.step] at ha; split at ha
-        · rename_i hx; simp only [Bool.and_eq_true, Bool.not_eq_true'] at hx
-          have := (Option.some.inj ha).symm
-          exact ⟨hx.1, by rw [this]; exact hx.2⟩
-        · cases ha
-    obtain ⟨hht, hmid'⟩ := ha
-    refine ⟨?_, ?_, ?_, ?_⟩
-    · intro k e he; rw [hr] at he; exact h.keyIn k e (svcDelete_some.1 he).1
-    · intro n k hk
-      rw [hv] at hk; rw [hr]
-      by_cases e : n = wt.name
-      · subst e; simp only [upd_same] at hk; cases hk
-      · rw [upd_other _ _ _ _ e] at hk
-        obtain ⟨e1, h1, h2⟩ := h.owned n k hk
-        refine ⟨e1, svcDelete_some.2 ⟨h1, ?_⟩, h2⟩
-        intro hx
-        obtain ⟨e2, h3, h4⟩ := h.owned _ k hx
-        rw [h1] at h3; cases h3; exact e (h2.symm.trans h4)
-    · intro t0 th0 h0 hm
-      rw [hth] at h0
-      rcases upd_some_cases h0 with ⟨rfl, rfl⟩ | ⟨ne, h0'⟩
-      · rw [hmid'] at hm; cases hm
-      · exact (nomid hht t0 th0 ne h0' hm).elim
-    · intro t0 th0 h0 hm
-      rw [hth] at h0
-      rcases upd_some_cases h0 with ⟨rfl, rfl⟩ | ⟨ne, h0'⟩
-      · rw [hmid'] at hm; cases hm
-      · exact (nomid hht t0 th0 ne h0' hm).elim
+theorem mem_dropClaim {c : Entry} {l : List Entry} {n : Name} (h : c ∈ dropClaim l n) : c ∈ l :=
+  (dropClaim_sublist l n).subset h
 
-/-! ### the second invariant -/
+theorem dropClaim_ne {l : List Entry} {n : Name} (hd : DistinctNames l) {c : Entry} (h : c ∈ dropClaim l n) :
+    c.desc.name ≠ n := by
+  induction l with
+  | nil => cases h
+  | cons x xs ih =>
+    simp only [dropClaim] at h
+    rw [DistinctNames, List.pairwise_cons] at hd
+    split at h
+    · rename_i hx
+      intro e; exact hd.1 c h (hx.trans e.symm)
+    · rename_i hx
+      rcases List.mem_cons.1 h with rfl | h
+      · exact hx
+      · exact ih hd.2 h
 
-structure Inv2 (s : State) : Prop where
-  sync : SyncInv s
-  wset : WsetInv s
-  svc : SvcInv s
+theorem mem_recordClaim {c e : Entry} {l : List Entry} (h : c ∈ recordClaim l e) : c = e ∨ c ∈ l := by
+  induction l with
+  | nil => left; simpa [recordClaim] using h
+  | cons x xs ih =>
+    simp only [recordClaim] at h
+    split at h
+    · rcases List.mem_cons.1 h with h | h
+      · left; exact h
+      · right; exact List.mem_cons_of_mem _ h
+    · rcases List.mem_cons.1 h with h | h
+      · right; rw [h]; exact List.mem_cons_self
+      · rcases ih h with h | h
+        · left; exact h
+        · right; exact List.mem_cons_of_mem _ h
 
-theorem inv2_reachable {P : Progs} (hP : P.wf = true) (s : State)
-    (h : GB.LTS.Reachable (step P) init s) : Inv P s ∧ Inv2 s := by
-  induction h with
-  | init => exact ⟨inv_init P, sync_init, wset_init, svc_init⟩
-  | @step s s' l _ hs ih =>
-    obtain ⟨i1, i2⟩ := ih
-    refine ⟨inv_step hP i1 hs, ?_⟩
-    cases l with
-    | spawn t op =>
-      simp only [step] at hs
-      split at hs
-      · rename_i hc
-        simp only [Bool.and_eq_true, Option.isNone_iff_eq_none] at hc
-        cases hs
-        exact ⟨sync_spawn op i2.sync hc.1, wset_spawn op i2.wset hc.1, svc_spawn op i2.svc hc.1⟩
-      · cases hs
-    | tau t =>
-      cases hth : s.threads t with
-      | none => simp [step, hth] at hs
-      | some th =>
-        cases hcode : th.code with
-        | nil => simp [step, hth, hcode] at hs
-        | cons i rest =>
-          exact ⟨sync_step i1 i2.sync hth hcode hs, wset_step i1 i2.sync.fl i2.wset hth hcode hs,
-            svc_step i1 i2.svc hth hcode hs⟩
+theorem self_mem_recordClaim (l : List Entry) (e : Entry) : e ∈ recordClaim l e := by
+  induction l with
+  | nil => simp [recordClaim]
+  | cons x xs ih =>
+    simp only [recordClaim]
+    split
+    · exact List.mem_cons_self
+    · exact List.mem_cons_of_mem _ ih
+
+theorem recordClaim_distinct {l : List Entry} (e : Entry) (hd : DistinctNames l) : DistinctNames (recordClaim l e) := by
+  induction l with
+  | nil => simp [recordClaim, DistinctNames]
+  | cons x xs ih =>
+    rw [DistinctNames, List.pairwise_cons] at hd
+    simp only [recordClaim]
+    split
+    · rename_i hx
+      rw [DistinctNames, List.pairwise_cons]
+      exact ⟨fun b hb => by rw [← hx]; exact hd.1 b hb, hd.2⟩
+    · rename_i hx
+      rw [DistinctNames, List.pairwise_cons]
+      refine ⟨?_, ih hd.2⟩
+      intro b hb
+      rcases mem_recordClaim hb with rfl | hb
+      · exact hx
+      · exact hd.1 b hb
+
+theorem svcClaim_cons_none {e : Entry} {r : Svc → Option Entry} {y : Svc} {ys : List Svc} {w : Svc → List Entry}
+    (h : r y = none) : svcClaim e r (y :: ys) w = svcClaim e r ys w := by simp [svcClaim, h]
+
+theorem svcClaim_cons_same {e old : Entry} {r : Svc → Option Entry} {y : Svc} {ys : List Svc} {w : Svc → List Entry}
+    (h : r y = some old) (hn : old.desc.name = e.desc.name) : svcClaim e r (y :: ys) w = svcClaim e r ys w := by
+  simp [svcClaim, h, hn]
+
+theorem svcClaim_cons_other {e old : Entry} {r : Svc → Option Entry} {y : Svc} {ys : List Svc} {w : Svc → List Entry}
+    (h : r y = some old) (hn : old.desc.name ≠ e.desc.name) :
+    svcClaim e r (y :: ys) w = svcClaim e r ys (upd w y (recordClaim (w y) e)) := by
+  simp [svcClaim, h, hn]
+
+theorem svcClaim_mem {e : Entry} {r : Svc → Option Entry} {l : List Svc} {w : Svc → List Entry} {k : Svc} {c : Entry}
+    (h : c ∈ svcClaim e r l w k) :
+    c ∈ w k ∨ (c = e ∧ k ∈ l ∧ ∃ old, r k = some old ∧ old.desc.name ≠ e.desc.name) := by
+  induction l generalizing w with
+  | nil => left; simpa [svcClaim] using h
+  | cons y ys ih =>
+    have lift : (c ∈ w k ∨ (c = e ∧ k ∈ ys ∧ ∃ old, r k = some old ∧ old.desc.name ≠ e.desc.name)) →
+        c ∈ w k ∨ (c = e ∧ k ∈ y :: ys ∧ ∃ old, r k = some old ∧ old.desc.name ≠ e.desc.name) := by
+      rintro (h1 | ⟨h1, h2, h3⟩)
+      · left; exact h1
+      · right; exact ⟨h1, List.mem_cons_of_mem _ h2, h3⟩
+    cases ho : r y with
+    | none => rw [svcClaim_cons_none ho] at h; exact lift (ih h)
+    | some old =>
+      by_cases hne : old.desc.name = e.desc.name
+      · rw [svcClaim_cons_same ho hne] at h; exact lift (ih h)
+      · rw [svcClaim_cons_other ho hne] at h
+        rcases ih h with h1 | ⟨h1, h2, h3⟩
+        · by_cases hk : k = y
+          · subst hk
+            simp only [upd_same] at h1
+            rcases mem_recordClaim h1 with h4 | h4
+            · right; exact ⟨h4, List.mem_cons_self, old, ho, hne⟩
+            · left; exact h4
+          · left; simpa [upd, hk] using h1
+        · right; exact ⟨h1, List.mem_cons_of_mem _ h2, h3⟩
+
+theorem svcClaim_distinct {e : Entry} {r : Svc → Option Entry} (l : List Svc) {w : Svc → List Entry}
+    (hd : ∀ k, DistinctNames (w k)) : ∀ k, DistinctNames (svcClaim e r l w k) := by
+  induction l generalizing w with
+  | nil => simpa [svcClaim] using hd
+  | cons y ys ih =>
+    cases ho : r y with
+    | none => rw [svcClaim_cons_none ho]; exact ih hd
+    | some old =>
+      by_cases hne : old.desc.name = e.desc.name
+      · rw [svcClaim_cons_same ho hne]; exact ih hd
+      · rw [svcClaim_cons_other ho hne]
+        apply ih
+        intro k
+        by_cases hk : k = y
+        · subst hk; simp only [upd_same]; exact recordClaim_distinct e (hd k)
+        · simpa [upd, hk] using hd k
+
+/-- every claim of another target is kept by the add phase -/
+theorem svcClaim_keeps {e : Entry} {r : Svc → Option Entry} (l : List Svc) {w : Svc → List Entry} {k : Svc} {c : Entry}
+    (h : c ∈ w k) (hn : c.desc.name ≠ e.desc.name) : c ∈ svcClaim e r l w k := by
+  have keep : ∀ (l : List Entry), c ∈ l → c ∈ recordClaim l e := by
+    intro l
+    induction l with
+    | nil => intro h; cases h
+    | cons x xs ih =>
+      intro h
+      simp only [recordClaim]
+      split
+      · rename_i hx
+        rcases List.mem_cons.1 h with rfl | h
+        · exact absurd hx hn
+        · exact List.mem_cons_of_mem _ h
+      · rcases List.mem_cons.1 h with rfl | h
+        · exact List.mem_cons_self
+        · exact List.mem_cons_of_mem _ (ih h)
+  induction l generalizing w with
+  | nil => simpa [svcClaim] using h
+  | cons y ys ih =>
+    cases ho : r y with
+    | none => rw [svcClaim_cons_none ho]; exact ih h
+    | some old =>
+      by_cases hne : old.desc.name = e.desc.name
+      · rw [svcClaim_cons_same ho hne]; exact ih h
+      · rw [svcClaim_cons_other ho hne]
+        apply ih
+        by_cases hk : k = y
+        · subst hk; simp only [upd_same]; exact keep _ h
+        · simpa [upd, hk] using h
+
+theorem release_r_self (q : RelSt) (k : Svc) : (release q k).r k = (q.w k).head? := by
+  unfold release; split <;> simp_all
+
+theorem release_w_self (q : RelSt) (k : Svc) : (release q k).w k = (q.w k).tail := by
+  unfold release; split <;> simp_all
+
+theorem release_other (q : RelSt) (k x : Svc) (h : x ≠ k) :
+    (release q k).r x = q.r x ∧ (release q k).w x = q.w x := by
+  unfold release; split <;> simp [upd, h]
+
+theorem relLoop_out {D : List Svc} {q : RelSt} {k : Svc} (hk : k ∉ D) :
+    (relLoop D q).r k = q.r k ∧ (relLoop D q).w k = q.w k := by
+  induction D generalizing q with
+  | nil => exact ⟨rfl, rfl⟩
+  | cons x xs ih =>
+    simp only [relLoop]
+    have h1 : k ≠ x := fun e => hk (e ▸ List.mem_cons_self)
+    have h2 : k ∉ xs := fun e => hk (List.mem_cons_of_mem _ e)
+    obtain ⟨a, b⟩ := ih (q := release q x) h2
+    obtain ⟨c, d⟩ := release_other q x k h1
+    exact ⟨a.trans c, b.trans d⟩
+
+theorem relLoop_in {D : List Svc} {q : RelSt} {k : Svc} (hn : D.Nodup) (hk : k ∈ D) :
+    (relLoop D q).r k = (q.w k).head? ∧ (relLoop D q).w k = (q.w k).tail := by
+  induction D generalizing q with
+  | nil => cases hk
+  | cons x xs ih =>
+    simp only [relLoop]
+    rw [List.nodup_cons] at hn
+    rcases List.mem_cons.1 hk with rfl | hk
+    · obtain ⟨a, b⟩ := relLoop_out (q := release q k) hn.1
+      exact ⟨a.trans (release_r_self q k), b.trans (release_w_self q k)⟩
+    · have h1 : k ≠ x := fun e => hn.1 (e ▸ hk)
+      obtain ⟨a, b⟩ := ih (q := release q x) hn.2 hk
+      obtain ⟨c, d⟩ := release_other q x k h1
+      rw [c] at *; rw [d] at a b
+      exact ⟨a, b⟩
+
+theorem relLoop_v_mem {D : List Svc} {q : RelSt} {x : Svc} {m : Name} (hn : D.Nodup) :
+    x ∈ (relLoop D q).v m ↔ x ∈ q.v m ∨ (x ∈ D ∧ ∃ c, (q.w x).head? = some c ∧ c.desc.name = m) := by
+  induction D generalizing q with
+  | nil => simp [relLoop]
+  | cons y ys ih =>
+    simp only [relLoop]
+    rw [List.nodup_cons] at hn
+    rw [ih hn.2]
+    have hv : x ∈ (release q y).v m ↔ x ∈ q.v m ∨ (x = y ∧ ∃ c, (q.w y).head? = some c ∧ c.desc.name = m) := by
+      unfold release
+      split
+      · rename_i hw; simp [hw]
+      · rename_i c rest hw
+        by_cases hm : m = c.desc.name
+        · subst hm; simp [hw, upd_same]
+        · simp only [upd_other _ _ _ _ hm, hw, List.head?_cons, Option.some.injEq]
+          constructor
+          · intro h; left; exact h
+          · rintro (h | ⟨_, c', h1, h2⟩)
+            · exact h
+            · subst h1; exact absurd h2.symm hm
+    constructor
+    · rintro (h | ⟨hx, c, h1, h2⟩)
+      · rcases hv.1 h with h | ⟨rfl, h⟩
+        · left; exact h
+        · right; exact ⟨List.mem_cons_self, h⟩
+      · have hxy : x ≠ y := fun e => hn.1 (e ▸ hx)
+        rw [(release_other q y x hxy).2] at h1
+        right; exact ⟨List.mem_cons_of_mem _ hx, c, h1, h2⟩
+    · rintro (h | ⟨hx, c, h1, h2⟩)
+      · left; exact hv.2 (Or.inl h)
+      · rcases List.mem_cons.1 hx with rfl | hx
+        · left; exact hv.2 (Or.inr ⟨rfl, c, h1, h2⟩)
+        · have hxy : x ≠ y := fun e => hn.1 (e ▸ hx)
+          right; refine ⟨hx, c, ?_, h2⟩
+          rw [(release_other q y x hxy).2]; exact h1
+
+theorem relLoop_nodup {D : List Svc} {q : RelSt} {n : Name} (H1 : ∀ m, (q.v m).Nodup)
+    (H2 : ∀ x ∈ D, ∀ m, m ≠ n → x ∉ q.v m) (H3 : D.Nodup) (H4 : ∀ x ∈ D, ∀ c ∈ q.w x, c.desc.name ≠ n) :
+    ∀ m, ((relLoop D q).v m).Nodup := by
+  induction D generalizing q with
+  | nil => simpa [relLoop] using H1
+  | cons y ys ih =>
+    simp only [relLoop]
+    rw [List.nodup_cons] at H3
+    apply ih
+    · intro m
+      unfold release
+      split
+      · exact H1 m
+      · rename_i c rest hw
+        by_cases hm : m = c.desc.name
+        · subst hm
+          simp only [upd_same]
+          have hc : c.desc.name ≠ n := H4 y List.mem_cons_self c (by rw [hw]; exact List.mem_cons_self)
+          have : y ∉ q.v c.desc.name := H2 y List.mem_cons_self _ hc
+          exact List.nodup_append.2 ⟨H1 _, by simp, by
+            intro a ha b hb; simp at hb; subst hb; intro e; subst e; exact this ha⟩
+        · simp only [upd_other _ _ _ _ hm]; exact H1 m
+    · intro x hx m hm
+      have hxy : x ≠ y := fun e => H3.1 (e ▸ hx)
+      unfold release
+      split
+      · exact H2 x (List.mem_cons_of_mem _ hx) m hm
+      · rename_i c rest hw
+        by_cases hm2 : m = c.desc.name
+        · subst hm2
+          simp only [upd_same, List.mem_append, List.mem_singleton, not_or]
+          exact ⟨H2 x (List.mem_cons_of_mem _ hx) _ hm, hxy⟩
+        · simp only [upd_other _ _ _ _ hm2]; exact H2 x (List.mem_cons_of_mem _ hx) m hm
+    · exact H3.2
+    · intro x hx c hc
+      have hxy : x ≠ y := fun e => H3.1 (e ▸ hx)
+      rw [(release_other q y x hxy).2] at hc
+      exact H4 x (List.mem_cons_of_mem _ hx) c hc
+
+theorem mem_dedup {l : List Svc} {x : Svc} : x ∈ dedup l ↔ x ∈ l := by
+  induction l with
+  | nil => simp [dedup]
+  | cons y ys ih =>
+    simp only [dedup, List.mem_cons, List.mem_filter, ih]
+    constructor
+    · rintro (h | ⟨h, _⟩)
+      · left; exact h
+      · right; exact h
+    · rintro (h | h)
+      · left; exact h
+      · by_cases e : x = y
+        · left; exact e
+        · right; exact ⟨h, by simpa using e⟩
+
+theorem nodup_dedup (l : List Svc) : (dedup l).Nodup := by
+  induction l with
+  | nil => simp [dedup]
+  | cons y ys ih =>
+    simp only [dedup, List.nodup_cons, List.mem_filter]
+    exact ⟨fun h => by simp at h, ih.filter _⟩
 
 end GB.C11
